@@ -187,6 +187,9 @@ class PrettyPrinter:
 
         for k, v in d.items():
             if not self.__is_metadata(k):
+                if isinstance(v, dict) and not v:
+                    # e.g. created by reading a missing key from an auto-creating Mapfile dict
+                    raise ValueError(f"The key {k} has an empty dictionary as a value")
                 qk = self.quoter.add_quotes(k)
                 qv = self.quoter.add_quotes(v)
                 line = self.__format_line(
